@@ -649,6 +649,9 @@ attrsLoop:
 
 						u, err := url.Parse(htmlAttr.Val)
 						if err != nil {
+							// a URL we cannot take apart may still lead a browser
+							// to another host: harden it like a qualified link
+							externalLink = true
 							continue
 						}
 						if u.Host != "" {
